@@ -21,9 +21,11 @@ AnonStruct == TStruct(<<Field("x", TString, TRUE), Field("y", TScalar("int64"), 
 \* and a union of numeral string constants (becomes such an enum in some chains)
 NumStrEnum == TEnum(<<Member("1", VStr("1"), "string"), Member("2", VStr("2"), "string")>>)
 ConstUnion == TDisj(<<TConst("string", VStr("10")), TConst("string", VStr("20"))>>, "", <<>>)
+\* a union of string constants that start with a sign (becomes an enum whose member names need sanitising)
+SignUnion  == TDisj(<<TConst("string", VStr("-inf")), TConst("string", VStr("+inf")), TConst("string", VStr("zero"))>>, "", <<>>)
 
 Leaves == <<TString, TScalar("int64"), TRef("p", "S"), TRef("p", "E"), AnonEnum, AnonStruct, TRef("p", "U"), IntEnum,
-            NumStrEnum, ConstUnion, TRef("p", "A2")>>
+            NumStrEnum, ConstUnion, TRef("p", "A2"), SignUnion>>
 
 \* constructors applied to an inner type x (the position under test)
 Ctors == <<"array", "mapval", "mapkey", "field", "optfield", "ornull", "orstring", "orref", "allof">>
